@@ -35,7 +35,8 @@ type c17RCase struct {
 	DelayMs    int   `json:"delayMs"`    // 1000 = configured as retryDelay:1 (real); other values patch the parsed configuration's RetryDelay like the repo's own tests do
 	FailRuns   int   `json:"failRuns"`   // the sink rejects every request during the first FailRuns runs (99 = for good)
 	Fail       []int `json:"fail"`       // additionally: entities the sink always rejects
-	Kill       bool  `json:"kill"`       // KillJob while run 1 waits for the sink's first answer
+	Kill       bool  `json:"kill"`       // KillJob while run 1 waits for the sink's answer to its KillAt-th request (0 = first)
+	KillAt     int   `json:"killAt,omitempty"`
 	Transform  bool  `json:"transform"`
 }
 
@@ -49,6 +50,8 @@ func c17RerunList(tier string) []c17RCase {
 		{K: 3, B: 1, MaxRetries: 3, DelayMs: 1000, FailRuns: 99},
 		{K: 3, B: 3, MaxRetries: 2, DelayMs: 1000, FailRuns: 0},
 		{K: 6, B: 2, MaxRetries: 2, DelayMs: 1000, FailRuns: 99, Kill: true},
+		// killed after the log handler has already dealt with a rejected entity of this run
+		{K: 6, B: 1, Log: true, LogFirst: true, MaxRetries: 2, DelayMs: 1000, Fail: []int{0}, Kill: true, KillAt: 2},
 	}
 	out = append(out, real...)
 	delays := []int{40}
@@ -74,6 +77,10 @@ func c17RerunList(tier string) []c17RCase {
 				// kill
 				out = append(out, c17RCase{K: k + 2, B: 1, MaxRetries: r, DelayMs: d, FailRuns: 99, Kill: true})
 				out = append(out, c17RCase{K: k + 2, B: 2, Log: true, MaxRetries: r, DelayMs: d, FailRuns: 0, Kill: true})
+				// kill after rejections were already handled in the killed run: [e0] rejected+reported, kill at e1's request
+				out = append(out, c17RCase{K: k + 3, B: 1, Log: true, LogFirst: r%2 == 1, MaxItems: 0, MaxRetries: r, DelayMs: d, Fail: []int{0}, Kill: true, KillAt: 2})
+				// [e0,e1] rejected, [e0] accepted, [e1] rejected+reported, kill at [e2,e3]
+				out = append(out, c17RCase{K: k + 5, B: 2, Log: true, LogFirst: r%2 == 0, MaxItems: 9, MaxRetries: r, DelayMs: d, Fail: []int{1}, Kill: true, KillAt: 4})
 			}
 		}
 	}
@@ -133,6 +140,9 @@ func c17Rerun(ctx *Ctx) error {
 		}
 		if c.Kill {
 			tags = append(tags, "kill")
+			if c.KillAt > 1 && len(c.Fail) > 0 {
+				tags = append(tags, "kill-after-rejection")
+			}
 		}
 		switch {
 		case c.FailRuns == 0 && len(c.Fail) == 0:
@@ -157,8 +167,8 @@ func (st *c17State) runRerun(caseID string, pos int, c c17RCase) {
 	var evs []c17Ev
 	viol := func(class, msg string, exp, got any) {
 		out.Stat("viol:"+class, 1)
-		out.Viol(caseID, "C17", class, fmt.Sprintf("k=%d b=%d log=%v maxItems=%d maxRetries=%d delay=%dms failRuns=%d fail=%v kill=%v transform=%v: %s",
-			c.K, c.B, c.Log, c.MaxItems, c.MaxRetries, c.DelayMs, c.FailRuns, c.Fail, c.Kill, c.Transform, msg), exp, got, map[string]any{"events": c17HeadEv(evs, 160)})
+		out.Viol(caseID, "C17", class, fmt.Sprintf("k=%d b=%d log=%v maxItems=%d maxRetries=%d delay=%dms failRuns=%d fail=%v kill=%v@%d transform=%v: %s",
+			c.K, c.B, c.Log, c.MaxItems, c.MaxRetries, c.DelayMs, c.FailRuns, c.Fail, c.Kill, c.KillAt, c.Transform, msg), exp, got, map[string]any{"events": c17HeadEv(evs, 160)})
 	}
 	src, err := st.ensureSource(c.K)
 	if err != nil {
@@ -172,6 +182,7 @@ func (st *c17State) runRerun(caseID string, pos int, c c17RCase) {
 	}
 	if c.Kill {
 		sc.block = true
+		sc.blockAt = c.KillAt
 		sc.reached = make(chan struct{})
 		sc.release = make(chan struct{})
 	}
@@ -298,6 +309,7 @@ func (st *c17State) runRerun(caseID string, pos int, c c17RCase) {
 		startNs int64
 		rej     int
 		nrep    int
+		killed  bool // the hub logged that the run was terminated (whatever it logged after that)
 	}
 	var sums []runSum
 	for ri, run := range runs {
@@ -306,6 +318,9 @@ func (st *c17State) runRerun(caseID string, pos int, c c17RCase) {
 		for _, e := range run {
 			if e.Kind == "end" {
 				s.endNs = e.Ns
+				if e.Msg == "terminated" {
+					s.killed = true
+				}
 			}
 		}
 		sums = append(sums, s)
@@ -324,6 +339,9 @@ func (st *c17State) runRerun(caseID string, pos int, c c17RCase) {
 	}
 	for ri := 1; ri < nexec; ri++ {
 		prev := sums[ri-1]
+		if prev.killed && prev.end != "terminated" {
+			viol("rerun-after-kill", fmt.Sprintf("run %d was re-executed although run %d was killed (the hub logged its termination, then recorded %q)", ri+1, ri, prev.end), "no re-execution", nexec)
+		}
 		switch prev.end {
 		case "finished":
 			viol("rerun-after-success", fmt.Sprintf("run %d was re-executed although run %d ended without an error", ri+1, ri), "no re-execution", nexec)
@@ -344,11 +362,14 @@ func (st *c17State) runRerun(caseID string, pos int, c c17RCase) {
 			}
 		}
 	}
-	if c.Kill && sums[0].end != "terminated" {
+	if c.Kill && !sums[0].killed {
 		out.Stat("kill_did_not_terminate_run", 1)
 	}
-	if c.Kill && sums[0].end == "terminated" {
+	if c.Kill && sums[0].killed {
 		out.Stat("runs_terminated_by_kill", 1)
+		if sums[0].nrep > 0 {
+			out.Stat("runs_terminated_by_kill_after_reported_rejection", 1)
+		}
 	}
 	if nexec < expect {
 		out.Inconclusive(caseID, "C17", fmt.Sprintf("watchdog: %d executions observed, %d expected (maxRetries=%d, failing runs=%d)", nexec, expect, c.MaxRetries, failing))
